@@ -97,9 +97,20 @@ async def history(sh: Shard, rig, r, regime, nev):
             else:
                 s_id, d_id = CLIENT_ID, SPA_ID
             before_block = spa.struct.status_block
+
+            def plain_state():
+                # every plainly valued attribute of the connection object (liveness stamps, counters,
+                # flags, versions ...): a packet of another pair leaves all of it alone
+                return {k_: v_ for k_, v_ in vars(spa).items() if isinstance(v_, (int, float, bool, str, bytes, type(None), tuple))}
+
             ev0, d0 = len(rig.events), len(w.net.dgrams)
+            st0 = plain_state()
             inject("misaddressed:" + variant, frame(s_id, d_id, payload), src=src_addr)
             await rig.quiesce(settle=0.3)
+            st1 = plain_state()
+            changed_attrs = sorted(k_ for k_ in set(st0) | set(st1) if st0.get(k_) != st1.get(k_))
+            if changed_attrs:
+                sh.violation(f"C07:misaddressed-effect:{variant}:state", f"a packet with wrong {variant} changed the connection object's state: {changed_attrs}", {"variant": variant, "payload": payload, "attributes": changed_attrs})
             sent = [d for d in w.net.dgrams[d0:] if d.dir == "c2s"]
             evs = [e[0].name for e in rig.events[ev0:]]
             sh.evaluations += 1
